@@ -206,8 +206,14 @@ PROPS["C07"] = dict(
     modules=["FjallModel.Props.C07"],
     theorems=["Fjall.Tx.c07_footprint_sound", "Fjall.Tx.c07_validated_commit_replays", "Fjall.Tx.c07_writes_marked",
               "Fjall.Tx.c07_counterexample_size_of_unmarked", "Fjall.Tx.c07_serializable", "Fjall.Tx.c07_readonly_at_snapshot",
-              "Fjall.Tx.c07_conflict_no_effect"],
+              "Fjall.Tx.c07_conflict_no_effect", "Fjall.CommitMutex.c07_commit_mutex_atomic", "Fjall.CommitMutex.c07_validation_still_holds_at_apply",
+              "Fjall.CommitMutex.c07_ssi_commit_is_atomic", "Fjall.CommitMutex.c07_mutex_released_after_validation_counterexample"],
     statements={
+        "c07_commit_mutex_atomic": "thread model of Oracle::with_commit (lock; validate + prune; apply + register; unlock as separate steps; any validation / application semantics, any number of threads "
+                                   "and commit requests, every schedule): at most one thread is inside a commit, the verdicts are those of the finished commits executed one after the other as single events, "
+                                   "and whenever nobody is inside a commit the shared state is that sequential state",
+        "c07_ssi_commit_is_atomic": "the event model's commit (SsiDb.commit, which c07_serializable is about) is the atomic commit of the instance ssiSem of that thread model, followed by the nonce drop",
+        "c07_mutex_released_after_validation_counterexample": "with the mutex released between validation and application (seeded change C07-7) two threads commit a write skew that no sequential order allows",
         "c07_footprint_sound": "for every in-transaction program: if two snapshots agree on every key covered by the recorded footprints, all outputs and the write set are equal",
         "c07_validated_commit_replays": "if validation finds no conflict with the transactions committed since the snapshot, re-executing the program on the state at the "
                                         "commit point yields the same observations and the same commit batch (serializable in commit order)",
